@@ -382,13 +382,14 @@ example : tr { pre := .seq (.assign "a" (.int 1)) (.seq (.assign "b" (.int 2)) (
 example : tr { pre := .seq (.assign "a" (.int 1)) (.tuple 0 ["a", "b"] [.int 2, .var "a"]), body := none }
     = .error .outsideFragment := by rfl
 
-/-! ### W6, increment 1: helper functions are in the model (syntax, both semantics, `tr`, rendering), not yet in `InF` -/
+/-! ### W6: helper functions — in the model (syntax, both semantics, `tr`, rendering) and in the fragment `InF` (procedures and
+    value-returning helpers, called at statement level; bodies over parameters and locals) -/
 
 /-- `def shout(v): mon.write(v); sleep(5)` / `def scale(v, flag): t = v * 2; if flag: t = t + 1; shout(t); return t`, then
     `a = 0; a = scale(4, True); shout(a)` and `a = scale(a, False)` in the main loop: accepted (the statements carry the definitions they
     call: `Prog.resolve`), both semantics run it to the same trace, the emitted text has the two prototypes (more than one definition),
-    the definitions with the local declared at its first assignment, and the calls.  `InF` does not admit calls yet: the theorems above
-    do not speak about this program (increment 1 ties the model of helpers to the transpiler, CPython and g++ through T, S_py, S_c). -/
+    the definitions with the local declared at its first assignment, and the calls.  The program is in `InF` (increment 3:
+    value-returning helpers), so this is an instance of `C01_partial`. -/
 example :
     let shout : Helper := { name := "shout", ps := [("v", .int)], body := .seq (.write (.var "v")) (.sleep (.int 5)), ret := none }
     let scale : Helper := { name := "scale", ps := [("v", .int), ("flag", .bool)], ret := some (.var "t"), body := .seq (.assign "t" (.bin .mul (.var "v") (.int 2))) (.seq (.ifs (.var "flag") (.assign "t" (.bin .add (.var "t") (.int 1))) .skip) (.call none "shout" [] [] .int .skip none [.var "t"])) }
@@ -397,7 +398,7 @@ example :
                   (.call none "shout" [] [] .int .skip none [.var "a"])),
         body := some (.call (some "a") "scale" [] [] .int .skip none [.var "a", .bool false]),
         helpers := [shout, scale] }
-    p.resolved = true ∧ InF p = false ∧
+    p.resolved = true ∧ InF p = true ∧
       Py.run p 2 50 = .ok [.write "9", .delay 5, .write "9", .delay 5, .write "18", .delay 5, .write "36", .delay 5] ∧
       (∃ c, tr p = .ok c ∧
         C.run c 2 50 = .ok [.write "9", .delay 5, .write "9", .delay 5, .write "18", .delay 5, .write "36", .delay 5] ∧
@@ -408,6 +409,41 @@ example :
           "void loop() {", "a = scale(a, false);", "}"]) := by
   intro shout scale p
   exact ⟨by decide +kernel, by decide +kernel, by rfl, _, rfl, by rfl, by decide +kernel⟩
+
+/-- non-vacuity (W6, increment 2): procedures.  `def shout(v): mon.write(v); sleep(5)` and
+    `def count(n, k): t = 0; for j in range(n): t += k; shout(t)` (a local declared at the top of the body, a loop, a call of the
+    earlier helper), called in the prologue, inside an `if` and in the main loop: `InF` holds, `tr` accepts, both semantics agree —
+    an instance of `C01_partial` -/
+example :
+    let shout : Helper := { name := "shout", ps := [("v", .int)], body := .seq (.write (.var "v")) (.sleep (.int 5)), ret := none }
+    let count : Helper := { name := "count", ps := [("n", .int), ("k", .int)], ret := none, body := .seq (.assign "t" (.int 0)) (.forRange "j" (.var "n") (.seq (.aug "t" .add (.var "k")) (.call none "shout" [] [] .int .skip none [.var "t"]))) }
+    let p : Prog := Prog.resolve
+      { pre := .seq (.assign "a" (.int 2)) (.seq (.call none "count" [] [] .int .skip none [.var "a", .int 3])
+                  (.ifs (.cmp .gt (.var "a") (.int 1)) (.call none "shout" [] [] .int .skip none [.bin .mul (.var "a") (.int 10)]) .skip)),
+        body := some (.seq (.aug "a" .add (.int 1)) (.call none "count" [] [] .int .skip none [.int 1, .var "a"])),
+        helpers := [shout, count] }
+    InF p = true ∧ InF2 p = true ∧
+      Py.run p 2 50 = .ok [.write "3", .delay 5, .write "6", .delay 5, .write "20", .delay 5, .write "3", .delay 5, .write "4", .delay 5] ∧
+      (∃ c, tr p = .ok c ∧
+        C.run c 2 50 = .ok [.write "3", .delay 5, .write "6", .delay 5, .write "20", .delay 5, .write "3", .delay 5, .write "4", .delay 5] ∧
+        c.loop.lines = ["a = (a + 1);", "count(1, a);"]) := by
+  intro shout count p
+  exact ⟨by decide +kernel, by decide +kernel, by rfl, _, rfl, by rfl, by decide +kernel⟩
+
+/-- the frame of a call is fresh: a helper body that names a module-level name is a NameError of the model's Python side and outside
+    `InF` (increment 4 — read-only access to module-level names — is not done); `x = f(…)` with a procedure `f` binds `None` in
+    Python and does not compile: a `typeError` of both semantics, outside `InF` -/
+example :
+    let p : Prog := Prog.resolve
+      { pre := .seq (.assign "a" (.int 2)) (.call none "peek" [] [] .int .skip none [.int 1]), body := none,
+        helpers := [{ name := "peek", ps := [("v", .int)], body := .write (.bin .add (.var "v") (.var "a")), ret := none }] }
+    let q : Prog := Prog.resolve
+      { pre := .seq (.assign "a" (.int 2)) (.call (some "a") "peek" [] [] .int .skip none [.int 1]), body := none,
+        helpers := [{ name := "peek", ps := [("v", .int)], body := .write (.var "v"), ret := none }] }
+    InF p = false ∧ Py.run p 0 50 = .error .nameError ∧ InF q = false ∧ Py.run q 0 50 = .error .typeError ∧
+      tr q = .error .outsideFragment := by
+  intro p q
+  exact ⟨by decide +kernel, by rfl, by decide +kernel, by rfl, by rfl⟩
 
 /-- one definition: no prototype (`if len(functions) > 1`); a helper that is only ever called as a STATEMENT is emitted with all-int
     parameters (the definition-time parse; nothing requests another signature), so the model refuses a bool-typed parameter there -/
